@@ -2,6 +2,7 @@ package c03
 
 import (
 	"fmt"
+	"google.golang.org/protobuf/internal/impl"
 	"reflect"
 
 	"google.golang.org/protobuf/proto"
@@ -13,7 +14,8 @@ import (
 
 // nilComposites: content that exists only through the Go API of open-struct
 // messages: a map<K, Message> entry whose Go value is a nil pointer and a
-// repeated message element that is a nil pointer (both are encoded as an empty
+// repeated message element that is a nil pointer, and a oneof set to the wrapper
+// of a message member whose message pointer is nil (all encoded as an empty
 // message). Every such field of every registered open-struct type: Size must
 // equal the length of the encoding, at top level and inside a length-prefixed
 // parent, and the encoding must decode to the entry with an empty message.
@@ -29,6 +31,37 @@ func nilComposites(c *core.Ctx) {
 		if o, ok := md.Options().(interface{ GetMessageSetWireFormat() bool }); ok && o.GetMessageSetWireFormat() {
 			continue
 		}
+		type nilCase struct {
+			name  string
+			build func() proto.Message
+		}
+		var cases []nilCase
+		// a oneof set to the wrapper of a message member whose message pointer is nil
+		// ("set to the empty message"; only constructible through the struct)
+		if mi, ok := mt.(*impl.MessageInfo); ok {
+			for _, wr := range mi.OneofWrappers {
+				wt := reflect.TypeOf(wr) // *Wrapper
+				if wt.Kind() != reflect.Ptr || wt.Elem().Kind() != reflect.Struct || wt.Elem().NumField() != 1 {
+					continue
+				}
+				ft := wt.Elem().Field(0).Type
+				if ft.Kind() != reflect.Ptr || !ft.Implements(reflect.TypeOf((*proto.Message)(nil)).Elem()) {
+					continue
+				}
+				for i := 0; i < rt.Elem().NumField(); i++ {
+					sf := rt.Elem().Field(i)
+					if sf.PkgPath != "" || sf.Tag.Get("protobuf_oneof") == "" || !wt.Implements(sf.Type) {
+						continue
+					}
+					i, wt := i, wt
+					cases = append(cases, nilCase{fmt.Sprintf("type=%s oneof-wrapper=%s (nil message inside)", md.FullName(), wt.Elem().Name()), func() proto.Message {
+						m := reflect.New(rt.Elem())
+						m.Elem().Field(i).Set(reflect.New(wt.Elem()))
+						return m.Interface().(proto.Message)
+					}})
+				}
+			}
+		}
 		for i := 0; i < rt.Elem().NumField(); i++ {
 			sf := rt.Elem().Field(i)
 			if sf.PkgPath != "" || sf.Tag.Get("protobuf") == "" {
@@ -39,10 +72,8 @@ func nilComposites(c *core.Ctx) {
 			if !isMapOfMsg && !isListOfMsg {
 				continue
 			}
-			n++
-			name := fmt.Sprintf("type=%s go-field=%s", md.FullName(), sf.Name)
-			c.Eval(1)
-			c.Guard(func() string { return "nil composite " + name }, func() {
+			i, sf := i, sf
+			cases = append(cases, nilCase{fmt.Sprintf("type=%s go-field=%s", md.FullName(), sf.Name), func() proto.Message {
 				m := reflect.New(rt.Elem())
 				if isMapOfMsg {
 					mp := reflect.MakeMap(sf.Type)
@@ -51,7 +82,15 @@ func nilComposites(c *core.Ctx) {
 				} else {
 					m.Elem().Field(i).Set(reflect.Append(reflect.MakeSlice(sf.Type, 0, 1), reflect.Zero(sf.Type.Elem())))
 				}
-				msg := m.Interface().(proto.Message)
+				return m.Interface().(proto.Message)
+			}})
+		}
+		for _, nc := range cases {
+			n++
+			name := nc.name
+			c.Eval(1)
+			c.Guard(func() string { return "nil composite " + name }, func() {
+				msg := nc.build()
 				for _, det := range []bool{false, true} {
 					mo := proto.MarshalOptions{AllowPartial: true, Deterministic: det}
 					b, err := mo.Marshal(msg)
